@@ -133,7 +133,9 @@ Arguments Raise {A} e.
    whether that dict was replaced by a new one during the call, and the routines called so far *)
 Record lst := mkL { sl : slot -> option tag; di : ikey -> option tag; dnew : bool; tr : list label }.
 
-Definition M (A : Type) := lst -> nat -> lst * nat * res A.
+(* the adversary's failure counter: None = no injected failure, Some k = the (k+1)-th call into
+   numeric code raises *)
+Definition M (A : Type) := lst -> option nat -> lst * option nat * res A.
 Definition ret {A} (a : A) : M A := fun l k => (l, k, Ret a).
 Definition bind {A B} (m : M A) (f : A -> M B) : M B :=
   fun l k => match m l k with
@@ -147,7 +149,11 @@ Notation "m ;;; f" := (bind m (fun _ => f)) (at level 61, right associativity).
 (* a call into numeric code: recorded, and aborted if the adversary's counter is exhausted *)
 Definition may_raise (lab : label) : M unit :=
   fun l k => let l' := mkL (sl l) (di l) (dnew l) (tr l ++ [lab]) in
-             match k with O => (l', O, Raise (E_injected lab)) | S k' => (l', k', Ret tt) end.
+             match k with
+             | None => (l', None, Ret tt)
+             | Some O => (l', Some O, Raise (E_injected lab))
+             | Some (S k') => (l', Some k', Ret tt)
+             end.
 
 Definition getslot (s : slot) : M (option tag) := fun l k => (l, k, Ret (sl l s)).
 Definition setslot (s : slot) (v : option tag) : M unit :=
@@ -168,6 +174,10 @@ Definition derive (g : grid) (inputs : list tag) : res tag :=
        then Ret (TBad (glen g))
        else Raise E_shape.
 Definition lift {A} (r : res A) : M A := fun l k => (l, k, r).
+
+(* how a returned value was obtained: the cached object itself, computed from a cached array without
+   reference to the requested frequencies, or computed for the requested frequencies *)
+Inductive how := Served | Derived | Computed.
 
 (* ------------------------------------------------------------------ mechanisms *)
 (* The three repairs of the pinned code.  The model of the current source is [fixed]; the other
@@ -258,13 +268,13 @@ Definition cache_total_phases (g : grid) (user : option tag) : M unit :=
         end) ;;
   setslot S_omega (Some (TF g)) ;;; setslot S_total_phases (Some v).
 
-Definition get_total_phases (g : grid) : M (tag * bool) :=
+Definition get_total_phases (g : grid) : M (tag * how) :=
   e <- omega_equal g ;;
   hit <- (if e then getslot S_total_phases else cleanup FreqDep ;;; ret None) ;;
   match hit with
-  | Some v => ret (v, true)
+  | Some v => ret (v, Served)
   | None => cache_total_phases g None ;;; v <- getslot S_total_phases ;;
-            ret (match v with Some v => v | None => TI end, false)
+            ret (match v with Some v => v | None => TI end, Computed)
   end.
 
 (* cache_control_matrix from "self.omega = omega" on; the control matrix is given *)
@@ -283,28 +293,29 @@ Definition update_intermediates (g : grid) : M unit :=
   setkey K_phase_factors (Some (TF g)) ;;; setkey K_first_order_integral (Some (TF g)) ;;;
   setkey K_control_matrix_step (Some (TF g)).
 
-Definition get_cm (g : grid) (ci : bool) : M (tag * bool) :=
+Definition get_cm (g : grid) (ci : bool) : M (tag * how) :=
   e <- omega_equal g ;;
   hit <- (if e then
             c <- getslot S_control_matrix ;;
             match c with
-            | Some v => ret (Some v)
+            | Some v => ret (Some (v, Served))
             | None => pc <- getslot S_control_matrix_pc ;;
                       match pc with
-                      | Some v => may_raise L_sum ;;; setslot S_control_matrix (Some v) ;;; ret (Some v)
+                      | Some v => may_raise L_sum ;;; setslot S_control_matrix (Some v) ;;;
+                                  ret (Some (v, Derived))
                       | None => ret None
                       end
             end
           else cleanup FreqDep ;;; ret None) ;;
   match hit with
-  | Some v => ret (v, true)
+  | Some r => ret r
   | None =>
       diagonalize ;;; t_prop ;;;
       may_raise L_cm ;;;
       (if ci then update_intermediates g else ret tt) ;;;
       cache_cm_given g (TF g) false ;;;
       v <- getslot S_control_matrix ;;
-      ret (match v with Some v => v | None => TI end, false)
+      ret (match v with Some v => v | None => TI end, Computed)
   end.
 
 (* cache_control_matrix(omega, control_matrix=user, cache_intermediates=ci) *)
@@ -316,9 +327,9 @@ Definition cache_cm (g : grid) (user : option (tag * bool)) (ci : bool) : M unit
         end) ;;
   cache_cm_rest g (fst x) (snd x).
 
-Definition get_pccm : M (tag * bool) :=
+Definition get_pccm : M (tag * how) :=
   c <- getslot S_control_matrix_pc ;;
-  match c with Some v => ret (v, true) | None => raise E_calc end.
+  match c with Some v => ret (v, Served) | None => raise E_calc end.
 
 (* numeric.calculate_second_order_filter_function(..., self._intermediates) *)
 Definition second_order (g : grid) : M tag :=
@@ -377,11 +388,11 @@ Definition ff_slot (w : which) (o : order) : slot :=
   | Second, _ => S_filter_function_2
   end.
 
-Definition get_ff (g : grid) (w : which) (o : order) (ci : bool) : M (tag * bool) :=
+Definition get_ff (g : grid) (w : which) (o : order) (ci : bool) : M (tag * how) :=
   e <- omega_equal g ;;
   hit <- (if e then getslot (ff_slot w o) else cleanup FreqDep ;;; ret None) ;;
   match hit with
-  | Some v => ret (v, true)
+  | Some v => ret (v, Served)
   | None =>
       cmo <- (match o with
               | First => r <- get_cm g ci ;; ret (Some (fst r, false))
@@ -389,26 +400,26 @@ Definition get_ff (g : grid) (w : which) (o : order) (ci : bool) : M (tag * bool
               end) ;;
       cache_ff g cmo None w o ci ;;;
       v <- getslot (ff_slot w o) ;;
-      ret (match v with Some v => v | None => TI end, false)
+      ret (match v with Some v => v | None => TI end, Computed)
   end.
 
-Definition get_pcff (w : which) : M (tag * bool) :=
+Definition get_pcff (w : which) : M (tag * how) :=
   hit <- getslot (match w with Fidelity => S_filter_function_pc
                              | Generalized => S_filter_function_pc_gen end) ;;
   match hit with
-  | Some v => ret (v, true)
+  | Some v => ret (v, Served)
   | None =>
       c <- getslot S_control_matrix_pc ;;
       match c with
       | Some v => may_raise L_pcff ;;;
                   setslot (match w with Fidelity => S_filter_function_pc
                                       | Generalized => S_filter_function_pc_gen end) (Some v) ;;;
-                  ret (v, true)
+                  ret (v, Derived)
       | None => raise E_calc
       end
   end.
 
-Definition get_deriv (g : grid) : M (tag * bool) :=
+Definition get_deriv (g : grid) : M (tag * how) :=
   pre <- (if m_deriv_after_cm mc then ret (None, None)
           else a <- getkey K_n_opers_transformed ;; b <- getkey K_first_order_integral ;; ret (a, b)) ;;
   r <- get_cm g true ;;
@@ -423,16 +434,16 @@ Definition get_deriv (g : grid) : M (tag * bool) :=
         | _ => if m_deriv_after_cm mc then lift (derive g [fst r]) else raise E_shape
         end) ;;
   may_raise L_gradff ;;;
-  ret (v, false).
+  ret (v, Computed).
 
 (* ---- functions of numeric.py / gradient.py as compositions of getters *)
-Definition integrate (g : grid) (f : tag) : M (tag * bool) :=
-  may_raise L_integrand ;;; v <- lift (derive g [f]) ;; may_raise L_integrate ;;; ret (v, false).
+Definition integrate (g : grid) (f : tag) : M (tag * how) :=
+  may_raise L_integrand ;;; v <- lift (derive g [f]) ;; may_raise L_integrate ;;; ret (v, Computed).
 
 (* which = 'total' / 'correlations' *)
 Inductive pwhich := Total | Correlations.
 
-Definition infidelity (g : grid) (pw : pwhich) (traceless : bool) (ci : bool) : M (tag * bool) :=
+Definition infidelity (g : grid) (pw : pwhich) (traceless : bool) (ci : bool) : M (tag * how) :=
   match pw with
   | Total =>
       r <- (if traceless then get_ff g Fidelity First ci else get_cm g ci) ;;
@@ -443,7 +454,7 @@ Definition infidelity (g : grid) (pw : pwhich) (traceless : bool) (ci : bool) : 
       else r <- get_pcff Fidelity ;; integrate g (fst r)
   end.
 
-Definition decay_amplitudes (g : grid) (pw : pwhich) (ci : bool) : M (tag * bool) :=
+Definition decay_amplitudes (g : grid) (pw : pwhich) (ci : bool) : M (tag * how) :=
   match pw with
   | Total =>
       c <- is_cached S_filter_function_gen ;;
@@ -457,7 +468,7 @@ Definition decay_amplitudes (g : grid) (pw : pwhich) (ci : bool) : M (tag * bool
            integrate g (fst r)
   end.
 
-Definition cumulant (g : grid) (pw : pwhich) (second : bool) (cio : option bool) : M (tag * bool) :=
+Definition cumulant (g : grid) (pw : pwhich) (second : bool) (cio : option bool) : M (tag * how) :=
   match pw, second with
   | Correlations, true => raise E_value
   | _, _ =>
@@ -465,22 +476,23 @@ Definition cumulant (g : grid) (pw : pwhich) (second : bool) (cio : option bool)
       if second then
         r2 <- get_ff g Fidelity Second false ;;
         r3 <- integrate g (fst r2) ;;
-        v <- lift (derive g [fst r; fst r3]) ;; ret (v, false)
+        v <- lift (derive g [fst r; fst r3]) ;; ret (v, Computed)
       else ret r
   end.
 
-Definition error_transfer_matrix (g : grid) (second : bool) (ci : bool) : M (tag * bool) :=
+Definition error_transfer_matrix (g : grid) (second : bool) (ci : bool) : M (tag * how) :=
   r <- cumulant g Total second (Some ci) ;; may_raise L_expm ;;; ret r.
 
-Definition infidelity_derivative (g : grid) : M (tag * bool) :=
+Definition infidelity_derivative (g : grid) : M (tag * how) :=
   r <- get_deriv g ;; may_raise L_integrate ;;; ret r.
 
 (* what concatenate(...) does to an input pulse that is not the last one (equal noise operators,
    frequencies given), what extend(...) does to an input, what concatenate_periodic does *)
 Definition concat_input (g : grid) : M unit :=
-  get_total_phases g ;;; tpl_prop ;;; get_cm g false ;;; lazy_prop S_total_propagator.
+  tau_prop ;;; get_total_phases g ;;; tpl_prop ;;; get_cm g false ;;; lazy_prop S_total_propagator.
 Definition extend_input (g : grid) : M unit := get_cm g false ;;; ret tt.
 Definition periodic_input : M unit :=
+  tau_prop ;;;
   c <- is_cached S_control_matrix ;;
   if c then
     o <- getslot S_omega ;;
@@ -515,13 +527,13 @@ Inductive op :=
 
 Definition user_tag (g : grid) (correct : bool) : tag := if correct then TF g else TBad (glen g).
 
-Definition noret (m : M unit) : M (option (tag * bool)) := m ;;; ret None.
-Definition withret (m : M (tag * bool)) : M (option (tag * bool)) := r <- m ;; ret (Some r).
+Definition noret (m : M unit) : M (option (tag * how)) := m ;;; ret None.
+Definition withret (m : M (tag * how)) : M (option (tag * how)) := r <- m ;; ret (Some r).
 
 Definition is_lazy (s : slot) : bool :=
   match s with S_eigvals | S_eigvecs | S_propagators | S_total_propagator => true | _ => false end.
 
-Definition run_op (o : op) : M (option (tag * bool)) :=
+Definition run_op (o : op) : M (option (tag * how)) :=
   match o with
   | GetCM g ci => withret (get_cm g ci)
   | CacheCM g u ci => noret (cache_cm g (option_map (fun x => (user_tag g (fst x), snd x)) u) ci)
@@ -584,16 +596,16 @@ Definition write_back (st : store) (i : nat) (l : lst) : store :=
     mkS (nobj st) (updn (objs st) i (sl l)) (iref st) (ndict st) (updn (dicts st) (iref st i) (di l)).
 
 Inductive gop :=
-| Call (i : nat) (o : op) (fail_at : nat)    (* method call on object i; aborts at raise point fail_at *)
+| Call (i : nat) (o : op) (fail_at : option nat)  (* method call on object i; aborts at raise point fail_at *)
 | Copy (i : nat)                               (* copy.copy(pulse i)  -> new object nobj *)
 | DeepCopy (i : nat)                           (* copy.deepcopy       -> new object nobj *)
 | Fresh.                                       (* a newly constructed pulse -> new object nobj *)
 
 Definition gop_ok (c : gop) : bool := match c with Call _ o _ => op_ok o | _ => true end.
 
-Definition never : nat := 1000.   (* more raise points than any call passes: no injected failure *)
+Definition never : option nat := None.   (* no injected failure *)
 
-Definition exec (mc : mech) (st : store) (c : gop) : store * res (option (tag * bool)) * list label :=
+Definition exec (mc : mech) (st : store) (c : gop) : store * res (option (tag * how)) * list label :=
   match c with
   | Call i o k =>
       if Nat.ltb i (nobj st) then
@@ -622,7 +634,7 @@ Definition exec (mc : mech) (st : store) (c : gop) : store * res (option (tag * 
 
 Definition step_with (mc : mech) (st : store) (c : gop) : store := fst (fst (exec mc st c)).
 Definition step : store -> gop -> store := step_with fixed.
-Definition result (st : store) (c : gop) : res (option (tag * bool)) := snd (fst (exec fixed st c)).
+Definition result (st : store) (c : gop) : res (option (tag * how)) := snd (fst (exec fixed st c)).
 
 (* ------------------------------------------------------------------ observation (correspondence) *)
 Definition some_b {A} (o : option A) : bool := match o with Some _ => true | None => false end.
@@ -633,21 +645,21 @@ Definition occupancy (st : store) (i : nat) : N :=
   bits (map (fun s => some_b (objs st i s)) all_slots
         ++ map (fun k => some_b (dicts st (iref st i) k)) all_keys).
 
-(* 0 returned nothing, 1 returned the cached object, 2 returned a new value, 3 CalculationError,
+(* 0 returned nothing, 1 returned the cached object, 2 returned a new array, 3 CalculationError,
    4 ValueError, 5 injected exception, 6 shape mismatch *)
-Definition result_class (r : res (option (tag * bool))) : N :=
+Definition result_class (r : res (option (tag * how))) : N :=
   match r with
-  | Ret None => 0 | Ret (Some (_, true)) => 1 | Ret (Some (_, false)) => 2
+  | Ret None => 0 | Ret (Some (_, Served)) => 1 | Ret (Some (_, _)) => 2
   | Raise E_calc => 3 | Raise E_value => 4 | Raise (E_injected _) => 5 | Raise E_shape => 6
   end%N.
 
 Definition patch_trace (t : list label) : list N := map label_idx (filter patchable t).
 
 (* raise-point index (in the model's numbering) of the j-th call of a patchable routine *)
-Fixpoint nth_patchable (t : list label) (j : nat) (pos : nat) : nat :=
+Fixpoint nth_patchable (t : list label) (j : nat) (pos : nat) : option nat :=
   match t with
   | [] => never
-  | l :: r => if patchable l then match j with O => pos | S j' => nth_patchable r j' (S pos) end
+  | l :: r => if patchable l then match j with O => Some pos | S j' => nth_patchable r j' (S pos) end
               else nth_patchable r j (S pos)
   end.
 
